@@ -10,19 +10,28 @@ CHECKER = ("coqc Props/C14.v + Print Assumptions; harness solve_cases with soft-
 
 
 def soft_oracle(recs):
-    lines, keys = [], set()
-    for r in recs:
-        k = r["key"]
-        if k in keys or not r["case"]["p"]["soft"]:
+    """per record (the oracle continues on top of exemption-needing soft solvables only if the run accepted them)"""
+    lines, memo = [], {}
+    for i, r in enumerate(recs):
+        o = r["obs"]["outcome"]
+        if not r["case"]["p"]["soft"] or ss.outcome_kind(o) != "sat":
             continue
-        keys.add(k)
-        lines.append("soft " + k + " " + vlib.toks(vlib.tok_universe(r["case"]["u"]), vlib.tok_problem(r["case"]["p"])))
+        mk = (r["key"], tuple(o["sat"]))
+        if mk in memo:
+            continue
+        memo[mk] = i
+        lines.append(f"soft {i} " + vlib.toks(vlib.tok_universe(r["case"]["u"]), vlib.tok_problem(r["case"]["p"]), vlib.tok_list(o["sat"])))
     out = vlib.oracle(lines)
-    res = {}
+    byidx = {}
     for k, v in out.items():
         if v.startswith("error"):
             raise vlib.CheckError("oracle error: " + v)
-        res[k] = None if v == "none" else [int(t) for t in v.split()[1:]]
+        byidx[int(k)] = None if v == "none" else [int(t) for t in v.split()[1:]]
+    res = {}
+    for i, r in enumerate(recs):
+        o = r["obs"]["outcome"]
+        if r["case"]["p"]["soft"] and ss.outcome_kind(o) == "sat":
+            res[i] = byidx.get(memo[(r["key"], tuple(o["sat"]))])
     return res
 
 
@@ -36,6 +45,7 @@ def run(res, tier, seed, replay):
         SOFT = 255
         streams = [("small", SOFT, "sync", "debug", 1200 * k), ("conflict", SOFT, "sync", "debug", 800 * k),
                    ("softdeep", SOFT, "sync", "debug", 1200 * k), ("softdeep", SOFT & ~8, "sync", "release", 600 * k),
+                   ("softrej", SOFT, "sync", "debug", 800 * k),
                    ("greedy", 25 | 128 | 4 | 2, "sync", "debug", 1200 * k), ("greedy", 25 | 128, "yield", "debug", 300 * k)]
         r2, hangs = ss.run_streams(streams, seed + 61, dump=True)
         r3, h3 = ss.run_streams([("small", SOFT, "sync", "release", 800 * k), ("greedy", 25 | 128 | 4 | 2, "sync", "release", 600 * k)],
@@ -55,14 +65,14 @@ def run(res, tier, seed, replay):
                           f"Solver::analyze: {r['an']}", dict(ss.replay_obj(r), analyses=r["an"]))
     expect = soft_oracle(recs)
     applicable, accepted_checked, known_poison = 0, 0, 0
-    for r in recs:
+    for ridx, r in enumerate(recs):
         key = r["key"]
         o = r["obs"]["outcome"]
         kd = ss.outcome_kind(o)
         soft = r["case"]["p"]["soft"]
         hard_solvable = ref[key]["solvable"]
         res.count([key, r["stream"]], kd == "sat" and len(set(soft)) >= 2)
-        res.sample({"case": r["case"], "outcome": o, "expected_accepted": expect.get(key)}, limit=2)
+        res.sample({"case": r["case"], "outcome": o, "expected_accepted": expect.get(ridx)}, limit=2)
         if kd == "unsat" and hard_solvable:
             res.violation(key, f"hard problem is solvable but with soft requirements {soft} the solver returns Unsolvable in {r['stream']}",
                           ss.replay_obj(r))
@@ -80,7 +90,7 @@ def run(res, tier, seed, replay):
         t = r.get("trace")
         if t is not None and not (t.get("db") and t.get("run") and t.get("lenient")):
             res.tie_break(f"trace inclusion (C14_valid) no longer checks in {r['stream']}: {t}", tc.trace_replay(r))
-        exp = expect.get(key)
+        exp = expect.get(ridx)
         if exp is None:
             continue
         applicable += 1
